@@ -155,10 +155,10 @@ pub open spec fn spec_well_formed(tx: Transaction) -> bool {
     &&& tx.fee.0 <= MAX_COINVAL.0
     &&& tx.outputs@.len() <= 255
 }
-pub uninterp spec fn spec_weight(tx: Transaction) -> nat;        // Transaction::weight(covenant_weight_from_bytes), < 2^128
-pub broadcast axiom fn axiom_weight_bound(tx: Transaction) ensures #[trigger] spec_weight(tx) <= u128::MAX;
+pub uninterp spec fn spec_tx_weight(tx: Transaction) -> nat;        // Transaction::weight(covenant_weight_from_bytes), < 2^128
+pub broadcast axiom fn axiom_weight_bound(tx: Transaction) ensures #[trigger] spec_tx_weight(tx) <= u128::MAX;
 pub open spec fn spec_base_fee(tx: Transaction, mult: u128) -> nat {
-    let p = spec_weight(tx) * (mult as nat);
+    let p = spec_tx_weight(tx) * (mult as nat);
     (if p > u128::MAX { u128::MAX as nat } else { p }) / 65536
 }
 pub open spec fn spec_output_coinid(tx: Transaction, i: u8) -> CoinID { CoinID { txhash: spec_txhash(tx), index: i } }
